@@ -175,6 +175,7 @@ class ClassInfo:
         self.opaque = False
         self.returns: dict[str, str] = {}
         self.pure: set[str] = set()
+        self.iterview: str | None = None
 
 
 class Contract:
@@ -250,9 +251,10 @@ class Program:
         self, name: str, file: str | None, bases: list[str],
         fields: dict[str, str], ctor: dict[str, Any] | None = None,
         opaque: bool = False, returns: dict[str, str] | None = None,
-        pure: list[str] | None = None,
+        pure: list[str] | None = None, iterview: str | None = None,
     ) -> None:
-        """opaque=True: an object known only through its abstract state
+        """iterview: name of a (ghost) list field that `for x in obj` walks.
+        opaque=True: an object known only through its abstract state
         (field ``absstate`` of an uninterpreted sort): a method call without
         a contract is logged as an effect, forgets the abstract state of
         the receiver and of its opaque arguments, and returns an arbitrary
@@ -267,6 +269,7 @@ class Program:
         self.classes[name].opaque = opaque
         self.classes[name].returns = returns or {}
         self.classes[name].pure = set(pure or [])
+        self.classes[name].iterview = iterview
         self._pending = getattr(self, '_pending', [])
         self._pending.append((name, fields))
 
